@@ -19,7 +19,45 @@ namespace nmtools::index
     struct dynamic_slice_t {};
 
     /**
-     * @brief Compute range (number of dim at specific axis) ignoring the value of step
+     * @brief Normalize start, stop and step of a slice on an axis of si elements, following python's slice.indices
+     * (PySlice_AdjustIndices): None takes the default of the direction, a negative bound counts from the end,
+     * out-of-range bounds are clamped to [0,si] (step > 0) or [-1,si-1] (step < 0).
+     * All arithmetic is done in a signed 64-bit type, whatever the (signed, unsigned, constant) types of the arguments.
+     *
+     * @param si        shape at i-th axis
+     * @param start_    start, integer or None
+     * @param stop_     stop, integer or None
+     * @param step_     step, integer or None
+     * @return constexpr auto array of normalized {start,stop,step}
+     */
+    template <typename si_t, typename start_t, typename stop_t, typename step_t>
+    constexpr inline auto normalize_slice(si_t si, [[maybe_unused]] start_t start_, [[maybe_unused]] stop_t stop_, [[maybe_unused]] step_t step_)
+    {
+        using int_t = int64_t;
+        const auto n = static_cast<int_t>(si);
+        auto step = int_t{1};
+        if constexpr (!is_none_v<step_t>) {
+            step = static_cast<int_t>(step_);
+        }
+        const auto lower = (step < 0 ? int_t{-1} : int_t{0});
+        const auto upper = (step < 0 ? n - 1 : n);
+        auto clamp = [&](int_t v){
+            v = (v < 0 ? v + n : v);
+            return (v < lower ? lower : (v > upper ? upper : v));
+        };
+        auto start = (step < 0 ? upper : lower);
+        auto stop  = (step < 0 ? lower : upper);
+        if constexpr (!is_none_v<start_t>) {
+            start = clamp(static_cast<int_t>(start_));
+        }
+        if constexpr (!is_none_v<stop_t>) {
+            stop = clamp(static_cast<int_t>(stop_));
+        }
+        return nmtools_array<int_t,3>{start,stop,step};
+    }
+
+    /**
+     * @brief Compute range (distance from start to stop in the direction of step, zero for an empty slice) ignoring the magnitude of step
      * 
      * @tparam si_t 
      * @tparam start_t 
@@ -32,249 +70,50 @@ namespace nmtools::index
      * @return constexpr auto 
      */
     template <typename si_t, typename start_t, typename stop_t, typename step_t>
-    constexpr inline auto compute_range(si_t si, [[maybe_unused]] start_t start, stop_t stop_, [[maybe_unused]] step_t step_) // -> size_type
+    constexpr inline auto compute_range(si_t si, start_t start, stop_t stop_, step_t step_) // -> size_type
     {
-        // following numpy, stop is actually max(stop,shape_i)
-        [[maybe_unused]] auto stop = [&](){
-            if constexpr (is_none_v<stop_t>)
-                return si;
-            else {
-                using stop_type = meta::promote_index_t<stop_t,meta::remove_cvref_t<decltype(si)>>;
-                return static_cast<stop_type>(stop_) < static_cast<stop_type>(si) ?
-                    static_cast<stop_type>(stop_) : static_cast<stop_type>(si);
-            }
-        }();
-
-        // workaround to ambiguous call to std abs, mostly because need to refactor avoiding
-        // gcc 8 internal compiler error :|
-        // gcc 8 no longer supported, maybe cleanup this code
-        [[maybe_unused]] auto abs_ = [](auto v) { return v < 0 ? -v : v; };
-        // both start and stop is none, simply returh shape for this axis
-        if constexpr (is_none_v<start_t> && is_none_v<stop_t>) {
-            return si;
-        }
-        // need start + 1 for such following case: 2::-?
-        // for such case, allowed indices should be (0,1,2) (range of 3) hence start + 1
-        else if constexpr (meta::is_index_v<start_t> && is_none_v<stop_t> && meta::is_index_v<step_t>) {
-            return (step_ < 0 && start >= 0) ? start + 1 : si - start;
-        }
-        else if constexpr (meta::is_index_v<start_t> && is_none_v<stop_t>) {
-            return si - start;
-        }
-        // start is none, a.k.a. zero
-        else if constexpr (is_none_v<start_t> && meta::is_index_v<stop_t>) {
-            return (stop_ < 0 ? (si + stop_) : stop);
-        }
-        else /* if constexpr (meta::is_index_v<start_t> && meta::is_index_v<stop_t>) */ {
-            // to make sure we have consistent return types
-            using result_t = meta::promote_index_t<start_t,stop_t>;
-            // note that here we use "stop" instead of "stop_",
-            // also note that stop is already normalized
-            if ((stop < 0) && (start < 0)) {
-                return static_cast<result_t>((si - abs_(stop)) - (si - abs_(start)));
-            } else if ((stop < 0) && (start >= 0)) {
-                // sample case
-                // a[0:-1,...] with shape(a) = (2,3,2)
-                return static_cast<result_t>((si - abs_(stop)) - start);
-            } else if ((stop >= 0) && (start < 0)) {
-                return static_cast<result_t>(stop - (si - abs_(start)));
-            } else /* if ((stop >= 0) && (start >= 0)) */ {
-                // the following should works for both negative and positive step
-                if ((result_t)stop > (result_t)start) {
-                    return static_cast<result_t>(stop - start);
-                } else {
-                    return static_cast<result_t>(start - stop);
-                }
-            }
-        }
+        const auto [m_start, m_stop, m_step] = normalize_slice(si,start,stop_,step_);
+        const auto range = (m_step < 0 ? m_start - m_stop : m_stop - m_start);
+        return static_cast<size_t>(range > 0 ? range : 0);
     }
 
+    /**
+     * @brief Magnitude of step, None means 1
+     */
     template <typename step_t>
     constexpr inline auto compute_step([[maybe_unused]] step_t step_)
     {
         // NOTE: step_ is passed instead of captured to avoid clang error
         if constexpr (is_none_v<step_t>)
-            return 1ul;
-        else if constexpr (meta::is_unsigned_v<step_t>)
-            return step_;
+            return size_t{1};
         else {
-            return (step_ < 0 ? -step_ : step_);
+            const auto step = static_cast<int64_t>(step_);
+            return static_cast<size_t>(step < 0 ? -step : step);
         }
     }
 
+    /**
+     * @brief Number of elements selected by a slice on an axis of si elements: ceil(range / |step|), in integers
+     */
+    template <typename si_t, typename start_t, typename stop_t, typename step_t>
+    constexpr inline auto compute_slice_size(si_t si, start_t start, stop_t stop, step_t step)
+    {
+        const auto range  = compute_range(si,start,stop,step);
+        const auto m_step = compute_step(step);
+        return (range + m_step - 1) / m_step;
+    }
+
+    /**
+     * @brief Index on the original axis of the i_i-th element of sliced indices: start + index * step with normalized start
+     */
     template <typename indices_t, typename si_t, typename start_t, typename stop_t, typename step_t, typename i_i_t>
     constexpr inline auto compute_index(const indices_t& indices, si_t si, start_t start_, stop_t stop_, step_t step_, i_i_t i_i)
     {
-        using index_t [[maybe_unused]]  = meta::get_index_element_type_t<indices_t>;
-        using sindex_t [[maybe_unused]] = meta::make_signed_t<index_t>;
-        using result_t [[maybe_unused]] = meta::make_unsigned_t<index_t>;
-        [[maybe_unused]] auto start = start_; // just alias
-        // following numpy, stop is actually (stop,shape_i)
-        [[maybe_unused]] auto stop = [&](){
-            if constexpr (is_none_v<stop_t>)
-                return si;
-            // clip value, keep sign
-            else {
-                using common_t = meta::promote_index_t<stop_t,si_t>;
-                auto s = static_cast<common_t>(stop_) < static_cast<common_t>(si)
-                            ? static_cast<common_t>(stop_) : static_cast<common_t>(si);
-                        s = static_cast<common_t>(s) > static_cast<common_t>(-si)
-                            ? static_cast<common_t>(s) : static_cast<common_t>(-si);
-                return s;
-            }
-        }();
-        // alias
-        [[maybe_unused]] auto step = step_;
-        // (1) simplest case: all is none
-        if constexpr (is_none_v<start_t> && is_none_v<stop_t> && is_none_v<step_t>) {
-            // example case:
-            // a[:]
-            auto index = at(indices,i_i);
-            return (result_t)index;
-        }
-        // (2) only start is integer
-        else if constexpr (meta::is_index_v<start_t> && is_none_v<stop_t> && is_none_v<step_t>) {
-            // example case:
-            // a[0::]
-            // a[-1::]
-            auto index = (start >= 0 ? start : stop - start) + at(indices,i_i);
-            return (result_t)index;
-            // return {start >= 0 ? start : stop - start, 1};
-        }
-        // (3) start and stop is integer, can be positive or negative
-        else if constexpr (meta::is_index_v<start_t> && meta::is_index_v<stop_t> && is_none_v<step_t>) {
-            // example case:
-            // a[0:2:]
-            // a[-2:3:]
-            // a[0:-1:]
-            // a[-2:-1:]
-            auto s = index_t{0};
-            if (start >= 0 && stop > 0)
-                s = start;
-            else if (start < 0 && stop > 0)
-                s = stop + start;
-            else if (start >= 0 && stop < 0)
-                s = start;
-            else /* if (start < 0 && stop < 0) */
-                s = si + start;
-            auto index = s + at(indices,i_i);
-            return (result_t)index;
-        }
-        // (4) all three is integer, can be positive or negative
-        else if constexpr (meta::is_index_v<start_t> && meta::is_index_v<stop_t> && meta::is_index_v<step_t>) {
-            auto _start = index_t{0};
-            auto _step  = index_t{0};
-            // step is negative:
-            if /**/ (start >= 0 && stop >= 0 && step < 0) {
-                if (stop > 0) {
-                    _start = stop - 1;
-                    _step  = step;
-                } else {
-                    _start = start;
-                    _step  = step;
-                }
-                // return {stop - 1, step};
-            }
-            else if (start < 0 && stop > 0 && step < 0) {
-                _start = stop + start;
-                _step  = step;
-                // return {stop+start, step};
-            } else if (start >= 0 && stop < 0 && step < 0) {
-                _start = start;
-                _step  = step;
-                // return {start, step};
-            } else if (start < 0 && stop < 0 && step < 0) {
-                _start = si + start - 1;
-                _step  = step;
-                // return {si+start-1, step};
-            }
-            // step is positive:
-            else if (start >= 0 && stop > 0 && step > 0) {
-                _start = start;
-                _step  = step;
-                // return {start, step};
-            } else if (start < 0 && stop > 0 && step > 0) {
-                _start = stop + start;
-                _step  = step;
-                // return {stop+start, step};
-            } else if (start >= 0 && stop < 0 && step > 0) {
-                _start = start;
-                _step  = step;
-                // return {start, step};
-            } else /* if (start < 0 && stop < 0 && step > 0) */ {
-                _start = si + start;
-                _step  = step;
-                // return {si+start, step};
-            }
-            auto index = _start + at(indices,i_i) * _step;
-            return (result_t)index;
-        } else if constexpr (is_none_v<start_t> && meta::is_index_v<stop_t> && is_none_v<step_t>) {
-            auto index = at(indices,i_i);
-            return (result_t)index;
-            // return {0,1};
-        } else if constexpr (is_none_v<start_t> && meta::is_index_v<stop_t> && meta::is_index_v<step_t>) {
-            auto _start = index_t{0};
-            auto _step  = index_t{0};
-            if (stop > 0 && step > 0) {
-                _start = 0;
-                _step  = step;
-                // return {0,step};
-            } else if (stop > 0 && step < 0) {
-                _start = si;
-                _step  = step;
-                // return {si,step};
-            } else if (stop < 0 && step > 0) {
-                _start = 0;
-                _step  = step;
-                // return {0,step};
-            } else /* if (stop > 0 && step > 0) */ {
-                _start = 0;
-                _step  = step;
-                // return {0,step};
-            }
-            auto index = _start + at(indices,i_i) * _step;
-            return (result_t)index;
-        }
-        else if constexpr (is_none_v<start_t> && is_none_v<stop_t> && meta::is_index_v<step_t>) {
-            // example case:
-            // a[::-1]
-            auto _start = sindex_t{0};
-            auto _step  = sindex_t{0};
-            if (step < 0) {
-                _start = si - 1;
-                _step  = step;
-                // return {si-1,step};
-            } else {
-                _start = 0;
-                _step  = step;
-                // return {0,step};
-            }
-            auto index = _start + at(indices,i_i) * _step;
-            return (result_t)index;
-        }
-        else /* if constexpr (meta::is_index_v<start_t> && is_none_v<stop_t> && meta::is_index_v<step_t>) */ {
-            auto _start = index_t{0};
-            auto _step  = index_t{0};
-            if (start >= 0 && step > 0) {
-                _start = start;
-                _step  = step;
-                // return {start, step};
-            } else if (start >= 0 && step < 0) {
-                _start = start;
-                _step  = step;
-                // return {start, step};
-            } else if (start < 0 && step > 0) {
-                _start = si + start;
-                _step  = step;
-                // return {si+start,step};
-            } else /* if (start < 0 && step < 0) */ {
-                _start = start;
-                _step  = step;
-                // return {start, step};
-            }
-            auto index = _start + at(indices,i_i) * _step;
-            return (result_t)index;
-        }
+        using index_t  = meta::get_index_element_type_t<indices_t>;
+        using result_t = meta::make_unsigned_t<index_t>;
+        const auto [start, stop, step] = normalize_slice(si,start_,stop_,step_);
+        const auto index = start + static_cast<int64_t>(at(indices,i_i)) * step;
+        return (result_t)index;
     };
 
     /**
@@ -468,9 +307,7 @@ namespace nmtools::index
                     return size_t{1};
                 }
             }();
-            auto s = compute_range(shape_i,start,stop,step);
-            auto step_ = compute_step(step);
-            return static_cast<size_type>(math::constexpr_ceil(static_cast<float>(s) / step_));
+            return static_cast<size_type>(compute_slice_size(shape_i,start,stop,step));
         };
 
         auto res = result_t {};
@@ -969,29 +806,9 @@ namespace nmtools::index
                 // (5) a[2::-2]
                 // (6) a[1::-2]
 
-                auto s = compute_range(si,start_,stop_,step_);
-
-                auto step = []([[maybe_unused]] auto step_){
-                    using m_step_t = meta::remove_cvref_t<decltype(step_)>;
-                    // NOTE: step_ is passed instead of captured to avoid clang error
-                    if constexpr (is_none_v<m_step_t>)
-                        return 1ul;
-                    else if constexpr (meta::is_unsigned_v<m_step_t>)
-                        return step_;
-                    else {
-                        using unsigned_step_t = meta::make_unsigned_t<m_step_t>;
-                        if (step_ < 0) {
-                            return (unsigned_step_t)-step_;
-                        } else {
-                            return (unsigned_step_t)step_;
-                        }
-                    }
-                }(step_);
-
                 // finally the resulting shape for corresponding indices
-                // is simply the range divided by the step
-                // use constexpr_ceil to allow clang compile this
-                at(res,r_i++) = static_cast<size_type>(math::constexpr_ceil(static_cast<float>(s) / step));
+                // is simply the range divided by the step, rounded up
+                at(res,r_i++) = static_cast<size_type>(compute_slice_size(si,start_,stop_,step_));
             } else /* if constexpr (meta::is_index_v<slice_t>) */ {
                 // only reduce the dimension,
                 // doesn't contributes to shape computation
